@@ -92,21 +92,32 @@ type hostDirs struct {
 	slots [3]string
 }
 
+// fatalf is fw.Fatalf (harness error, exit 2) after removing the temporary directories.
+func fatalf(format string, a ...any) {
+	if tmpRoot != "" {
+		os.RemoveAll(tmpRoot)
+	}
+	fw.Fatalf(format, a...)
+}
+
+var tmpRoot string
+
 // newHostDirs creates one mount directory per slot. The file "f" has slot-specific content so that an instance
 // that reads through another instance's mount is visible. The guest only ever opens "f" read-only.
 func newHostDirs() *hostDirs {
 	root, err := os.MkdirTemp("", "verif-c11-")
 	if err != nil {
-		fw.Fatalf("mkdtemp: %v", err)
+		fatalf("mkdtemp: %v", err)
 	}
+	tmpRoot = root
 	h := &hostDirs{root: root}
 	for j := range h.slots {
 		h.slots[j] = filepath.Join(root, fmt.Sprintf("slot%d", j))
 		if err := os.Mkdir(h.slots[j], 0o755); err != nil {
-			fw.Fatalf("mkdir: %v", err)
+			fatalf("mkdir: %v", err)
 		}
 		if err := os.WriteFile(filepath.Join(h.slots[j], "f"), []byte(fmt.Sprintf("S%dab%dcd%def%dgh", j, j, j, j)), 0o644); err != nil {
-			fw.Fatalf("write: %v", err)
+			fatalf("write: %v", err)
 		}
 	}
 	return h
@@ -151,7 +162,7 @@ func newWorld(c cfg, dirs *hostDirs, loneSlot int) *world {
 		nrt = 2
 		d, err := os.MkdirTemp(dirs.root, "cache-")
 		if err != nil {
-			fw.Fatalf("mkdtemp: %v", err)
+			fatalf("mkdtemp: %v", err)
 		}
 		w.cacheDir = d
 		n := 1
@@ -161,12 +172,12 @@ func newWorld(c cfg, dirs *hostDirs, loneSlot int) *world {
 		for k := 0; k < n; k++ {
 			cc, err := wazero.NewCompilationCacheWithDir(d)
 			if err != nil {
-				fw.Fatalf("cache dir: %v", err)
+				fatalf("cache dir: %v", err)
 			}
 			w.caches = append(w.caches, cc)
 		}
 	default:
-		fw.Fatalf("bad rt mode %q", c.RT)
+		fatalf("bad rt mode %q", c.RT)
 	}
 	need := [2]bool{}
 	for _, v := range c.Variants {
@@ -179,7 +190,7 @@ func newWorld(c cfg, dirs *hostDirs, loneSlot int) *world {
 		}
 		rt := wazero.NewRuntimeWithConfig(ctx, rc)
 		if _, err := wasi_snapshot_preview1.Instantiate(ctx, rt); err != nil {
-			fw.Fatalf("wasi: %v", err)
+			fatalf("wasi: %v", err)
 		}
 		var cm [2]wazero.CompiledModule
 		for v := 0; v < 2; v++ {
@@ -188,7 +199,7 @@ func newWorld(c cfg, dirs *hostDirs, loneSlot int) *world {
 			}
 			var err error
 			if cm[v], err = rt.CompileModule(ctx, guestBins[v]); err != nil {
-				fw.Fatalf("guest module rejected (%s): %v", c, err)
+				fatalf("guest module rejected (%s): %v", c, err)
 			}
 		}
 		w.rts = append(w.rts, rt)
@@ -204,7 +215,7 @@ func newWorld(c cfg, dirs *hostDirs, loneSlot int) *world {
 				return nil
 			})
 			if n == 0 {
-				fw.Fatalf("directory-backed cache %s is empty after compilation", w.cacheDir)
+				fatalf("directory-backed cache %s is empty after compilation", w.cacheDir)
 			}
 		}
 	}
@@ -271,7 +282,7 @@ func (w *world) instantiate(j int) *inst {
 func (in *inst) fn(op int) api.Function {
 	if in.fns[op] == nil {
 		if in.fns[op] = in.mod.ExportedFunction(opNames[op]); in.fns[op] == nil {
-			fw.Fatalf("export %s missing", opNames[op])
+			fatalf("export %s missing", opNames[op])
 		}
 	}
 	return in.fns[op]
